@@ -26,6 +26,7 @@ class Site:
     loops: List[Tuple[ast.expr, ast.expr]]  # (target, iter) of enclosing for loops / comprehensions, outermost first
     defs: Dict[str, ast.expr]         # straight-line local definitions visible at the site (last one wins)
     in_try: bool = False
+    validation: frozenset = frozenset()  # ids of tests whose polarity is known only because the other branch raises
 
 
 def terminates(stmts: Sequence[ast.stmt]) -> bool:
@@ -108,8 +109,12 @@ def walk_block(stmts, conds, loops, defs, is_effect, out, in_try=False):
             walk_block(st.orelse, conds + [(st.test, False)], loops, defs, is_effect, out, in_try)
             if terminates(st.body) and not terminates(st.orelse):
                 conds.append((st.test, False))
+                if _only_raises(st.body):
+                    _VALIDATION.add(id(st.test))
             elif st.orelse and terminates(st.orelse) and not terminates(st.body):
                 conds.append((st.test, True))
+                if _only_raises(st.orelse):
+                    _VALIDATION.add(id(st.test))
             for n in _assigned_names(st):
                 defs.pop(n, None)
         elif isinstance(st, ast.For):
@@ -155,9 +160,28 @@ def walk_block(stmts, conds, loops, defs, is_effect, out, in_try=False):
                 defs.pop(n, None)
 
 
+_VALIDATION = set()
+
+
+def _only_raises(stmts) -> bool:
+    """the block does nothing but raise (an argument-validation guard)"""
+    if not stmts:
+        return False
+    last = stmts[-1]
+    if isinstance(last, ast.Raise):
+        return all(isinstance(x, (ast.Raise, ast.Expr, ast.Assign)) for x in stmts)
+    if isinstance(last, ast.If):
+        return _only_raises(last.body) and _only_raises(last.orelse)
+    return False
+
+
 def sites(fn: ast.FunctionDef, is_effect: Callable[[ast.AST], bool]) -> List[Site]:
     out: List[Site] = []
+    _VALIDATION.clear()
     walk_block(fn.body, [], [], {}, is_effect, out)
+    val = frozenset(_VALIDATION)
+    for s in out:
+        s.validation = val
     return out
 
 
@@ -306,9 +330,12 @@ def to_formula(expr: ast.expr, atomize: Callable[[ast.expr], Optional[tuple]], o
     return A("?" + norm(expr))
 
 
-def path_formula(site: Site, atomize, opaque=True):
+def path_formula(site: Site, atomize, opaque=True, drop_validation=False):
+    """drop_validation: ignore conditions that only say "the arguments passed validation" (the other branch raises)."""
     parts = []
     for test, pol in site.conds:
+        if drop_validation and id(test) in site.validation:
+            continue
         f = to_formula(test, atomize, opaque)
         parts.append(f if pol else Not(f))
     return And(*parts)
